@@ -196,14 +196,14 @@ pub(crate) mod kani_verif {
     // @h props=C10 tier=quick kind=proved cfg=w8 timeout=1800 funcs=compute_seed_derive;compute_hmac;compute_hmac_ipad;compute_hmac_opad contract="aux key = H(0^20||D_DAUX||seed); HMAC(key, data) with 64-byte ipad/opad blocks; every seed and 20-byte data, every hash function; n=16"
     #[kani::proof]
     #[kani::stub(<[u8; 32] as tinyvec::Array>::default, fast_default)]
-    #[kani::unwind(140)]
+    #[kani::unwind(40)]
     fn c10_mac_n16() {
         check_mac::<16, 20>();
     }
     // @h props=C10 tier=thorough kind=proved cfg=w8 timeout=1800 funcs=compute_seed_derive;compute_hmac contract="same, n=32"
     #[kani::proof]
     #[kani::stub(<[u8; 32] as tinyvec::Array>::default, fast_default)]
-    #[kani::unwind(140)]
+    #[kani::unwind(40)]
     fn c10_mac_n32() {
         check_mac::<32, 20>();
     }
@@ -214,7 +214,7 @@ pub(crate) mod kani_verif {
     #[kani::proof]
     #[kani::stub(zeroize::optimization_barrier, no_barrier)]
     #[kani::stub(<[u8; 32] as tinyvec::Array>::default, fast_default)]
-    #[kani::unwind(200)]
+    #[kani::unwind(40)]
     fn c10_save_extract_finalize() {
         type R = RecHash<16, 192>;
         R::reset_log();
